@@ -1414,6 +1414,8 @@ def opaque_tokens(body):
                 lams = [y for y in _walk(x) if y.get('k') == 'LambdaExpr']
                 if any(_impure(l['c'][0]) for l in lams if l.get('c')) or nm.rsplit('::', 1)[-1] in ('for_each', 'transform', 'accumulate', 'generate', 'for_each_n', 'copy_if', 'remove_if', 'replace_if', 'partition'):
                     out.append('alg-effect')
+                elif nm.rsplit('::', 1)[-1] in ('any_of', 'all_of', 'none_of'):
+                    out.append('quant')         # never a reason to decline (new_opaque); a NEW one makes the function a candidate for desugar()
         elif k == 'GotoStmt':
             out.append('goto')
     for x in _walk(body):
@@ -1427,6 +1429,8 @@ def new_opaque(body, known):
     left = list(known or ())
     new = []
     for t in cur:
+        if t == 'quant':
+            continue
         if t in left:
             left.remove(t)
         else:
